@@ -53,6 +53,11 @@ def curated(tier):
         add("dS_piola", cell, p={"family": "N1curl"})
     for cell in ("triangle", "hexahedron"):
         add("cond_ties", cell, p={"facets": True}, data_fixed={"w": 0.0, "c": 2.0})
+    # every geometric quantity under each restriction
+    for cell in ("triangle", "tetrahedron", "quadrilateral", "hexahedron"):
+        for side in ("+", "-", "mix"):
+            add("geom_all", cell, p={"itype": "interior_facet", "side": side})
+        add("geom_all", cell, p={"itype": "exterior_facet"})
     add("facet_plain", "prism")
     add("facet_plain", "prism", p={"degree": 2})
     # mixed-dimensional forms (functions on the facet mesh), sub-meshes of codimension 0, ridge integrals
